@@ -1076,8 +1076,10 @@ func (p *Parser[V]) parseUnary(tokenizer *Tokenizer, constants Identifiers[V]) (
 			var inner AST
 			var err error
 			if un.opPos >= 0 {
-				// the unary is also an operator ("-")
-				inner, err = p.parseOp(tokenizer, un.opPos+1, constants)
+				// the unary is also an operator ("-"), the operand is build by the
+				// operators of higher priority; if it is the operator of the highest
+				// priority there is no such operator
+				inner, err = p.nextParserCall(un.opPos)(tokenizer, constants)
 			} else {
 				inner, err = p.parseNonOperator(tokenizer, constants)
 			}
